@@ -224,14 +224,7 @@ public:
     /// https://en.cppreference.com/w/cpp/container/set/erase
     ///
     /// \returns Iterator following the last removed element.
-    constexpr auto erase(iterator first, iterator last) -> iterator
-    {
-        auto res = first;
-        for (; first != last; ++first) {
-            res = erase(first);
-        }
-        return res;
-    }
+    constexpr auto erase(iterator first, iterator last) -> iterator { return _storage.erase(first, last); }
 
     /// \brief Removes the element (if one exists) with the key equivalent to
     /// key.
